@@ -151,6 +151,13 @@ def give_a_past(ds, past, sc=None):
              lambda: (ds.is_complete, ds.without_ties, ds.nb_elements, ds.nb_rankings, ds.universe, ds.mapping_elem_id, ds.mapping_id_elem),
              lambda: [(r.positions, r.domain, r.nb_elements, len(r)) for r in ds.rankings]]
     if sc is not None:
+        for k in (2.0, 0.5):      # ... also under proportional schemes, on this very dataset object (a memo kept ON the dataset and keyed on
+            try:                  # anything coarser than the penalties is then stale for the judged call)
+                s2 = ScoringScheme([[x * k for x in sc.penalty_vectors[0]], [x * k for x in sc.penalty_vectors[1]]])
+                touch += [lambda s2=s2: BioConsert().compute_consensus_rankings(ds, s2, True).kemeny_score,
+                          lambda s2=s2: CopelandMethod().compute_consensus_rankings(ds, s2, True).kemeny_score]
+            except Exception:
+                pass
         touch += [lambda: BordaCount().compute_consensus_rankings(ds, sc, True), lambda: CopelandMethod().compute_consensus_rankings(ds, sc, True),
                   lambda: PickAPerm().compute_consensus_rankings(ds, sc, False), lambda: BioConsert().compute_consensus_rankings(ds, sc, False),
                   lambda: OrderedPartition.parfront_partition(ds, sc)]
@@ -159,6 +166,7 @@ def give_a_past(ds, past, sc=None):
             f()
         except Exception:
             pass
+    scribble(ds)
     if past.get("remove"):
         try:
             ds.remove_elements({e for e in ds.universe if e.value in past["remove"]})
@@ -175,6 +183,34 @@ def give_a_past(ds, past, sc=None):
         except Exception:
             pass
     return ds
+
+
+def scribble(ds):
+    """a caller did what it liked with the objects the read accessors GAVE it: on the pinned tree `universe`, `Ranking.domain`,
+    `get_positions`, `get_bucket_ids`, `unified_rankings` and `unified_dataset` all build a fresh object at each call (the accessors
+    that hand out internal state - rankings, buckets, positions dict, the two id maps - are not touched), so emptying or overwriting what
+    they returned cannot change the dataset; it does when a later version hands out a cached object by reference"""
+    try:
+        u = ds.universe
+        u.clear()
+        for r in ds.rankings:
+            d = r.domain
+            d.clear()
+        p = ds.get_positions()
+        p[...] = 7
+        b = ds.get_bucket_ids()
+        b[...] = 0
+        ur = ds.unified_rankings()
+        for r in ur:
+            r.buckets.clear()
+            r.positions.clear()
+        del ur[:]
+        ud = ds.unified_dataset()
+        ud.rankings.clear()
+        ud.mapping_elem_id.clear()
+        ud.mapping_id_elem.clear()
+    except Exception:
+        pass
 
 
 def random_past(rng, D):
@@ -195,8 +231,13 @@ def mk(D, s):
     """dataset + scheme of a case; the case context (gen.CURRENT) may rename the elements and give the dataset a past"""
     ds = Dataset.from_raw_list([[{gen.fwd(e) for e in b} for b in r] for r in D])
     sc = ScoringScheme(s)
+    if gen.CURRENT.get("scale_exp") is not None:
+        k = 2.0 ** gen.CURRENT["scale_exp"]
+        sc = ScoringScheme([[x * k for x in s[0]], [x * k for x in s[1]]])
     if gen.CURRENT.get("_past"):
         give_a_past(ds, gen.CURRENT["_past"], sc)
+    if gen.CURRENT.get("scribbled"):
+        scribble(ds)
     return ds, sc
 
 
